@@ -1,16 +1,55 @@
 /-
-C04 (truthful window): every segment that `flush` writes into a datagram carries the window value
-`wndUnused k` computed at the start of that flush — the ACK / WASK / WINS headers through the scratch
-header, the PUSH headers because `xmitOne` stamps `wnd` on every segment it (re)sends.
-Core Lean only.
+The wire format of the KCP core (C01, DESIGN.md 7.1 item 2): what `flush` writes into its output
+buffers is a sequence of frames `encodeHdr … ++ data`; the header parse of `inputLoop` reads the
+fields back (`C01_hdr_roundtrip`), so a datagram made of frames whose PUSH members are genuine
+satisfies the receive side's premise `GenuineIn`.
 -/
-import KcpVerif.Lemmas.KcpOps
+import KcpVerif.Model.Kcp
+import KcpVerif.Lemmas.KcpFrame
+import KcpVerif.Lemmas.KcpRecv
 
-namespace KcpVerif.Kcp
-open KcpVerif KcpVerif.Gen
+namespace KcpVerif.Wire
+open KcpVerif KcpVerif.Gen KcpVerif.Kcp KcpVerif.Frame KcpVerif.Recv
 
-/-- a segment as it appears on the wire -/
-structure WireSeg where
+theorem u8_toNat (n : Nat) : (UInt8.ofNat n).toNat = n % 256 := by simp
+
+theorem asm32 (v : U32) :
+    BitVec.ofNat 32 (v.toNat % 256 % 256 + 256 * (v.toNat / 256 % 256 % 256) + 65536 * (v.toNat / 65536 % 256 % 256)
+      + 16777216 * (v.toNat / 16777216 % 256 % 256)) = v := by
+  have := v.isLt
+  apply BitVec.eq_of_toNat_eq
+  simp only [BitVec.toNat_ofNat]
+  omega
+
+theorem asm16 (v : BitVec 16) : BitVec.ofNat 16 (v.toNat % 256 % 256 + 256 * (v.toNat / 256 % 256 % 256)) = v := by
+  have := v.isLt
+  apply BitVec.eq_of_toNat_eq
+  simp only [BitVec.toNat_ofNat]
+  omega
+
+theorem asm8 (v : BitVec 8) : BitVec.ofNat 8 (v.toNat % 256) = v := by
+  have := v.isLt
+  apply BitVec.eq_of_toNat_eq
+  simp only [BitVec.toNat_ofNat]
+  omega
+
+theorem encodeHdr_length (conv : U32) (cmd frg : BitVec 8) (wnd : BitVec 16) (ts sn una : U32) (len : Nat) :
+    (encodeHdr conv cmd frg wnd ts sn una len).length = IKCP_OVERHEAD := by
+  simp [encodeHdr, le32, le16, IKCP_OVERHEAD]
+
+/-- the field reads of `inputLoop` give back what `segment.encode` wrote, whatever follows -/
+theorem hdr_roundtrip (conv : U32) (cmd frg : BitVec 8) (wnd : BitVec 16) (ts sn una : U32) (len : Nat)
+    (rest : Bytes) :
+    parseHdr (encodeHdr conv cmd frg wnd ts sn una len ++ rest) =
+      ⟨conv, cmd, frg, wnd, ts, sn, una, len % 2 ^ 32⟩ := by
+  unfold parseHdr
+  simp only [encodeHdr, le32, le16, List.cons_append, List.nil_append, rd32, rd16, byteAt,
+    List.getD_cons_zero, List.getD_cons_succ, u8_toNat, Nat.reduceAdd, asm32, asm16, asm8]
+  simp [u32]
+
+/-! ### frames -/
+
+structure Frm where
   conv : U32
   cmd  : BitVec 8
   frg  : BitVec 8
@@ -19,364 +58,186 @@ structure WireSeg where
   sn   : U32
   una  : U32
   data : Bytes
-deriving Repr, DecidableEq
 
-/-- 24 header bytes (with `len = data.length`) followed by the payload -/
-def WireSeg.enc (w : WireSeg) : Bytes :=
-  encodeHdr w.conv w.cmd w.frg w.wnd w.ts w.sn w.una w.data.length ++ w.data
+def encFrame (fr : Frm) : Bytes :=
+  encodeHdr fr.conv fr.cmd fr.frg fr.wnd fr.ts fr.sn fr.una fr.data.length ++ fr.data
 
-def encSegs (l : List WireSeg) : Bytes := (l.map WireSeg.enc).flatten
+def encFrames (frs : List Frm) : Bytes := (frs.map encFrame).flatten
 
-/-- `b` is a concatenation of whole encoded segments, each advertising the window `wnd` -/
-def AllWnd (wnd : BitVec 16) (b : Bytes) : Prop := ∃ l : List WireSeg, b = encSegs l ∧ ∀ w ∈ l, w.wnd = wnd
+/-- a frame that cannot mislead the peer: the payload fits a pool buffer and, if the frame is a
+PUSH, its `(frg, payload)` is the genuine content of its sequence number -/
+def FrameOk (G : U32 → Content) (fr : Frm) : Prop :=
+  fr.data.length ≤ mtuLimit ∧ (fr.cmd.toNat = IKCP_CMD_PUSH → (fr.frg, fr.data) = G fr.sn)
 
-theorem allWnd_nil (wnd : BitVec 16) : AllWnd wnd [] := ⟨[], rfl, fun _ h => absurd h List.not_mem_nil⟩
+/-- a byte string that is a concatenation of good frames -/
+def Framed (G : U32 → Content) (b : Bytes) : Prop := ∃ frs, b = encFrames frs ∧ ∀ fr ∈ frs, FrameOk G fr
 
-theorem allWnd_append {wnd : BitVec 16} {a b : Bytes} (ha : AllWnd wnd a) (hb : AllWnd wnd b) :
-    AllWnd wnd (a ++ b) := by
-  obtain ⟨l1, e1, h1⟩ := ha
-  obtain ⟨l2, e2, h2⟩ := hb
-  refine ⟨l1 ++ l2, ?_, ?_⟩
-  · rw [e1, e2]; unfold encSegs; rw [List.map_append, List.flatten_append]
-  · intro w hw
-    rcases List.mem_append.1 hw with h | h
-    · exact h1 w h
-    · exact h2 w h
+theorem Framed.nil (G : U32 → Content) : Framed G [] := ⟨[], rfl, by simp⟩
 
-theorem allWnd_one (w : WireSeg) : AllWnd w.wnd w.enc :=
-  ⟨[w], by unfold encSegs; simp, fun x hx => by rw [List.mem_singleton.1 hx]⟩
+theorem Framed.snoc {G : U32 → Content} {b : Bytes} (h : Framed G b) (fr : Frm) (hf : FrameOk G fr) :
+    Framed G (b ++ encFrame fr) := by
+  obtain ⟨frs, hb, hall⟩ := h
+  refine ⟨frs ++ [fr], by rw [hb]; simp [encFrames], ?_⟩
+  intro x hx
+  rcases List.mem_append.mp hx with h1 | h1
+  · exact hall x h1
+  · rw [List.mem_singleton.mp h1]; exact hf
 
-/-- a header-only segment (ACK, WASK, WINS) -/
-theorem allWnd_hdr (conv : U32) (cmd frg : BitVec 8) (wnd : BitVec 16) (ts sn una : U32) :
-    AllWnd wnd (encodeHdr conv cmd frg wnd ts sn una 0) := by
-  have := allWnd_one ⟨conv, cmd, frg, wnd, ts, sn, una, []⟩
-  unfold WireSeg.enc at this
-  simpa using this
+/-- **round trip**: a concatenation of good frames, parsed by the peer's `Input` loop (any `conv`,
+any fuel), shows only genuine PUSH segments -/
+theorem framed_genuine (G : U32 → Content) (conv : U32) :
+    ∀ (frs : List Frm), (∀ fr ∈ frs, FrameOk G fr) → ∀ fuel, GenuineFrames G conv fuel (encFrames frs) := by
+  intro frs
+  induction frs with
+  | nil =>
+    intro _ fuel
+    cases fuel with
+    | zero => trivial
+    | succ f => unfold GenuineFrames; simp [encFrames, IKCP_OVERHEAD]
+  | cons fr frs ih =>
+    intro hall fuel
+    cases fuel with
+    | zero => trivial
+    | succ f =>
+      have hfr := hall fr (List.mem_cons_self ..)
+      have e : encFrames (fr :: frs) =
+          encodeHdr fr.conv fr.cmd fr.frg fr.wnd fr.ts fr.sn fr.una fr.data.length ++ (fr.data ++ encFrames frs) := by
+        simp [encFrames, encFrame]
+      have hlen : fr.data.length % 2 ^ 32 = fr.data.length := by
+        have := hfr.1; unfold mtuLimit at this; omega
+      unfold GenuineFrames
+      rw [e, hdr_roundtrip, hlen]
+      have hdrop : (encodeHdr fr.conv fr.cmd fr.frg fr.wnd fr.ts fr.sn fr.una fr.data.length ++
+          (fr.data ++ encFrames frs)).drop IKCP_OVERHEAD = fr.data ++ encFrames frs := by
+        rw [← encodeHdr_length fr.conv fr.cmd fr.frg fr.wnd fr.ts fr.sn fr.una fr.data.length, List.drop_left]
+      rw [hdrop]
+      simp only []
+      split
+      · trivial
+      · split
+        · trivial
+        · split
+          · trivial
+          · split
+            · trivial
+            · refine ⟨fun hpush => ?_, ?_⟩
+              · unfold content pushSeg
+                simp only [List.take_left]
+                exact hfr.2 hpush
+              · rw [List.drop_left]
+                exact ih (fun x hx => hall x (List.mem_cons_of_mem _ hx)) f
 
-/-- the output state of a flush is well formed: unless a slice-bounds panic was recorded, the pending
-buffer and every datagram already handed to `output` consist of whole segments advertising `wnd` -/
-def FlOK (wnd : BitVec 16) (f : Fl) : Prop :=
-  f.panic = false → AllWnd wnd f.cur ∧ ∀ o ∈ f.outs, AllWnd wnd o
+theorem Framed.genuineIn {G : U32 → Content} {b : Bytes} (h : Framed G b) (conv : U32) : GenuineIn G conv b := by
+  obtain ⟨frs, hb, hall⟩ := h
+  unfold GenuineIn
+  rw [hb]
+  exact framed_genuine G conv frs hall _
 
-theorem FlOK.setK {wnd : BitVec 16} {f : Fl} (h : FlOK wnd f) (k : Kcp) : FlOK wnd { f with k := k } := h
+/-! ### the output buffers of `flush` -/
 
-theorem FlOK.makeSpace {wnd : BitVec 16} {f : Fl} (h : FlOK wnd f) (n : Nat) : FlOK wnd (f.makeSpace n) := by
+/-- unless a slice-bounds panic happened, the pending bytes and every finished output are framed -/
+def FlOk (G : U32 → Content) (f : Fl) : Prop :=
+  f.panic = false → Framed G f.cur ∧ ∀ o ∈ f.outs, Framed G o
+
+theorem FlOk.init (G : U32 → Content) (k : Kcp) : FlOk G { k := k } :=
+  fun _ => ⟨Framed.nil G, by simp⟩
+
+theorem FlOk.congr {G : U32 → Content} {f f' : Fl} (h1 : f'.cur = f.cur) (h2 : f'.outs = f.outs)
+    (h3 : f'.panic = f.panic) (h : FlOk G f) : FlOk G f' := by
+  unfold FlOk; rw [h1, h2, h3]; exact h
+
+theorem makeSpace_flOk {G : U32 → Content} {f : Fl} (h : FlOk G f) (n : Nat) : FlOk G (f.makeSpace n) := by
   unfold Fl.makeSpace
   split
   · intro hp
-    obtain ⟨hc, ho⟩ := h hp
-    refine ⟨allWnd_nil wnd, ?_⟩
-    intro o hm
-    rcases List.mem_append.1 hm with hm | hm
-    · exact ho o hm
-    · rw [List.mem_singleton.1 hm]; exact hc
+    obtain ⟨h1, h2⟩ := h hp
+    refine ⟨Framed.nil G, fun o ho => ?_⟩
+    rcases List.mem_append.mp ho with h3 | h3
+    · exact h2 o h3
+    · rw [List.mem_singleton.mp h3]; exact h1
   · exact h
 
-theorem FlOK.putHdr {wnd : BitVec 16} {f : Fl} (h : FlOK wnd f) (hdr : Bytes) (hh : AllWnd wnd hdr) :
-    FlOK wnd (f.putHdr hdr) := by
+/-- a header-only frame (ACK, WASK, WINS) -/
+theorem putHdr_flOk {G : U32 → Content} {f : Fl} (h : FlOk G f) (conv : U32) (cmd : BitVec 8) (wnd : BitVec 16)
+    (ts sn una : U32) (hc : cmd.toNat ≠ IKCP_CMD_PUSH) :
+    FlOk G (f.putHdr (encodeHdr conv cmd 0 wnd ts sn una 0)) := by
   unfold Fl.putHdr
   split
   · intro hp; cases hp
   · intro hp
-    obtain ⟨hc, ho⟩ := h hp
-    exact ⟨allWnd_append hc hh, ho⟩
+    obtain ⟨h1, h2⟩ := h hp
+    refine ⟨?_, h2⟩
+    have := h1.snoc ⟨conv, cmd, 0, wnd, ts, sn, una, []⟩ ⟨by simp, fun hx => absurd hx hc⟩
+    simpa [encFrame] using this
 
-/-- a header followed by its payload -/
-theorem FlOK.putSeg {wnd : BitVec 16} {f : Fl} (h : FlOK wnd f) (w : WireSeg) (hw : w.wnd = wnd) :
-    FlOK wnd ((f.putHdr (encodeHdr w.conv w.cmd w.frg w.wnd w.ts w.sn w.una w.data.length)).putData w.data) := by
-  unfold Fl.putData
-  split
-  · intro hp; cases hp
-  · unfold Fl.putHdr
+/-- the header + payload of a transmitted segment -/
+theorem xmitEmit_flOk {G : U32 → Content} {f : Fl} (h : FlOk G f) (s2 : Seg)
+    (hs : s2.data.length ≤ mtuLimit ∧ content s2 = G s2.sn) : FlOk G (xmitEmit f s2) := by
+  have h1 := makeSpace_flOk h (IKCP_OVERHEAD + s2.data.length)
+  have key : FlOk G (((f.makeSpace (IKCP_OVERHEAD + s2.data.length)).putHdr (encodeHdr s2.conv s2.cmd s2.frg s2.wnd s2.ts s2.sn s2.una s2.data.length)).putData
+      s2.data) := by
+    unfold Fl.putHdr
     split
-    · intro hp; cases hp
-    · intro hp
-      obtain ⟨hc, ho⟩ := h hp
-      refine ⟨?_, ho⟩
-      show AllWnd wnd (f.cur ++ encodeHdr w.conv w.cmd w.frg w.wnd w.ts w.sn w.una w.data.length ++ w.data)
-      rw [List.append_assoc]
-      exact allWnd_append hc (hw ▸ allWnd_one w)
-
-theorem ackFlush_ok (wnd : BitVec 16) (una : U32) (t : Nat) (l : List Ack) (i : Nat) (st : AckSt)
-    (h : FlOK wnd st.f) : FlOK wnd (ackFlush wnd una t l i st).f := by
-  induction l generalizing i st with
-  | nil => exact h
-  | cons a rest ih =>
-    unfold ackFlush
-    simp only []
-    split
-    · exact ih _ _ ((h.makeSpace _).putHdr _ (allWnd_hdr ..))
-    · exact ih _ _ (h.makeSpace _)
-
-theorem probeCmd_ok {wnd : BitVec 16} {f : Fl} (h : FlOK wnd f) (flag cmd : Nat) (sc : Scratch) (una : U32) :
-    FlOK wnd (probeCmd f flag cmd wnd sc una) := by
-  unfold probeCmd
-  split
-  · exact (h.makeSpace _).putHdr _ (allWnd_hdr ..)
-  · exact h
-
-theorem flushP3_ok (k : Kcp) (now : U32) : FlOK (wndUnused k) (flushP3 k now) := by
-  unfold flushP3
-  simp only []
-  apply FlOK.setK
-  apply probeCmd_ok
-  apply probeCmd_ok
-  apply FlOK.setK
-  unfold flushP1
-  apply ackFlush_ok
-  intro _
-  exact ⟨allWnd_nil _, fun _ hm => absurd hm List.not_mem_nil⟩
-
-theorem xmitStamp_wnd (s : Seg) (now : U32) (wnd : BitVec 16) (una : U32) :
-    (xmitStamp true s now wnd una).wnd = wnd := rfl
-
-theorem xmitEmit_ok {wnd : BitVec 16} {f : Fl} (h : FlOK wnd f) (s : Seg) (hs : s.wnd = wnd) :
-    FlOK wnd (xmitEmit f s) := by
-  have := (h.makeSpace (IKCP_OVERHEAD + s.data.length)).putSeg ⟨s.conv, s.cmd, s.frg, s.wnd, s.ts, s.sn, s.una, s.data⟩ hs
+    · unfold Fl.putData; split <;> (intro hp; cases hp)
+    · unfold Fl.putData
+      split
+      · intro hp; cases hp
+      · intro hp
+        obtain ⟨h2, h3⟩ := h1 hp
+        refine ⟨?_, h3⟩
+        have := h2.snoc ⟨s2.conv, s2.cmd, s2.frg, s2.wnd, s2.ts, s2.sn, s2.una, s2.data⟩ ⟨hs.1, fun _ => hs.2⟩
+        simpa [encFrame, List.append_assoc] using this
   unfold xmitEmit
   simp only []
   split
-  · exact this.setK _
-  · exact this
+  · exact FlOk.congr rfl rfl rfl key
+  · exact key
 
-theorem xmitOne_ok (now resent : U32) (wnd : BitVec 16) (una : U32) (n : Nat) (st : XmitSt) (s : Seg)
-    (h : FlOK wnd st.f) : FlOK wnd (xmitOne now resent wnd una n st s).f := by
-  rw [xmitOne_eq]
-  split
-  · exact h
-  · simp only []
-    split
-    · rename_i hr
-      apply xmitEmit_ok h
-      rw [hr]; rfl
-    · exact h
-
-theorem xmitFold_ok (now resent : U32) (wnd : BitVec 16) (una : U32) (n : Nat) (l : List Seg) (st : XmitSt)
-    (h : FlOK wnd st.f) : FlOK wnd (l.foldl (xmitOne now resent wnd una n) st).f := by
-  induction l generalizing st with
-  | nil => exact h
-  | cons s r ih => exact ih _ (xmitOne_ok _ _ _ _ _ _ _ h)
-
-theorem flushX_ok {wnd : BitVec 16} {f : Fl} (h : FlOK wnd f) (full : Bool) (now : U32) (una : U32) (c : Nat) :
-    FlOK wnd (flushX f full now wnd una c).f := by
-  unfold flushX
-  split
-  · exact xmitFold_ok _ _ _ _ _ _ _ h
-  · exact h
-
-/-- every datagram a flush hands to `output` consists of whole segments that all advertise the
-`wnd_unused()` value computed at the start of the flush (unless the model recorded a panic) -/
-theorem flush_allWnd (k : Kcp) (full : Bool) (now : U32) (hp : (flush k full now).panic = false) :
-    ∀ o ∈ (flush k full now).outs, AllWnd (wndUnused k) o := by
-  rw [flush_eq] at hp ⊢
-  simp only [] at hp ⊢
-  have h4 : FlOK (wndUnused k) (flushP4 (flushP3 k now) now) := (flushP3_ok k now).setK _
-  have hx := flushX_ok h4 full now k.rcv_nxt (flushAd (flushP3 k now).k now).count
-  obtain ⟨hc, ho⟩ := hx hp
-  intro o hm
-  split at hm
-  · rcases List.mem_append.1 hm with hm | hm
-    · exact ho o hm
-    · rw [List.mem_singleton.1 hm]; exact hc
-  · exact ho o hm
-
-/-- `flush` does not touch what `wnd_unused()` reads -/
-theorem flush_wndUnused (k : Kcp) (full : Bool) (now : U32) : wndUnused (flush k full now).k = wndUnused k := by
-  obtain ⟨pw, tp, st, ss, cw, inc, done, hk, _⟩ := flush_k k full now
-  rw [hk]; rfl
-
-/-- the advertised window never exceeds the free space of the delivery queue (the `uint16`
-truncation can only lower it) -/
-theorem wndUnused_le (k : Kcp) : (wndUnused k).toNat ≤ k.rcv_wnd.toNat - k.rcv_queue.length := by
-  unfold wndUnused
-  split
-  · rw [BitVec.toNat_ofNat]; exact Nat.mod_le _ _
-  · exact Nat.zero_le _
-
-/-- … and is exact below 2^16 -/
-theorem wndUnused_eq (k : Kcp) (h : k.rcv_wnd.toNat - k.rcv_queue.length < 2^16) :
-    (wndUnused k).toNat = k.rcv_wnd.toNat - k.rcv_queue.length := by
-  unfold wndUnused
-  split
-  · rw [BitVec.toNat_ofNat]; exact Nat.mod_eq_of_lt h
-  · show 0 = _; omega
-
-/-- stated with the state AFTER the flush (which is what a monitor sees) -/
-theorem flush_allWnd_post (k : Kcp) (full : Bool) (now : U32) (hp : (flush k full now).panic = false) :
-    ∀ o ∈ (flush k full now).outs, AllWnd (wndUnused (flush k full now).k) o := by
-  rw [flush_wndUnused]; exact flush_allWnd k full now hp
-
-theorem update_allWnd_post (k : Kcp) (now : U32) (hp : (update k now).panic = false) :
-    ∀ o ∈ (update k now).outs, AllWnd (wndUnused (update k now).k) o := by
-  rw [update_eq] at hp ⊢
-  split at hp
-  · rename_i hg
-    rw [if_pos hg]
-    exact flush_allWnd_post _ _ _ hp
-  · rename_i hg
-    rw [if_neg hg]
-    intro o hm; exact absurd hm List.not_mem_nil
-
-theorem inputFin_allWnd_post (k2 : Kcp) (fs nd : Bool) (now : U32) (hp : (inputFin k2 fs nd now).panic = false) :
-    ∀ o ∈ (inputFin k2 fs nd now).outs, AllWnd (wndUnused (inputFin k2 fs nd now).k) o := by
-  unfold inputFin at hp ⊢
-  split
-  · rename_i h1; rw [if_pos h1] at hp; exact flush_allWnd_post _ _ _ hp
-  · rename_i h1; rw [if_neg h1] at hp
-    split
-    · rename_i h2; rw [if_pos h2] at hp; exact flush_allWnd_post _ _ _ hp
-    · rename_i h2; rw [if_neg h2] at hp
-      split
-      · rename_i h3; rw [if_pos h3] at hp; exact flush_allWnd_post _ _ _ hp
-      · intro o hm; exact absurd hm List.not_mem_nil
-
-theorem input_allWnd_post (k : Kcp) (data : Bytes) (regular ackNoDelay : Bool) (now : U32)
-    (hp : (input k data regular ackNoDelay now).panic = false) :
-    ∀ o ∈ (input k data regular ackNoDelay now).outs,
-      AllWnd (wndUnused (input k data regular ackNoDelay now).k) o := by
-  rw [input_eq] at hp ⊢
-  split
-  · intro o hm; exact absurd hm List.not_mem_nil
-  · rename_i h0; rw [if_neg h0] at hp
-    unfold inputTail at hp ⊢
-    split
-    · intro o hm; exact absurd hm List.not_mem_nil
-    · rename_i h1; rw [if_neg h1] at hp
-      split
-      · intro o hm; exact absurd hm List.not_mem_nil
-      · rename_i h2; rw [if_neg h2] at hp
-        exact inputFin_allWnd_post _ _ _ _ hp
-
-/-! ### reading the segments back, the way `Input` walks a datagram -/
-
-theorem encodeHdr_length (conv : U32) (cmd frg : BitVec 8) (wnd : BitVec 16) (ts sn una : U32) (len : Nat) :
-    (encodeHdr conv cmd frg wnd ts sn una len).length = IKCP_OVERHEAD := by
-  unfold encodeHdr le32 le16; rfl
-
-theorem rd16_hdr (conv : U32) (cmd frg : BitVec 8) (wnd : BitVec 16) (ts sn una : U32) (len : Nat) (rest : Bytes) :
-    rd16 (encodeHdr conv cmd frg wnd ts sn una len ++ rest) 6 = wnd := by
-  unfold encodeHdr le32 le16 rd16 byteAt
-  simp only [List.cons_append, List.nil_append, List.getD_cons_succ, List.getD_cons_zero]
-  apply BitVec.eq_of_toNat_eq
-  simp only [BitVec.toNat_ofNat, UInt8.toNat_ofNat']
-  have := wnd.isLt
-  omega
-
-theorem rd32_hdr_len (conv : U32) (cmd frg : BitVec 8) (wnd : BitVec 16) (ts sn una : U32) (len : Nat) (rest : Bytes) :
-    rd32 (encodeHdr conv cmd frg wnd ts sn una len ++ rest) 20 = u32 len := by
-  unfold encodeHdr le32 le16 rd32 byteAt
-  simp only [List.cons_append, List.nil_append, List.getD_cons_succ, List.getD_cons_zero]
-  apply BitVec.eq_of_toNat_eq
-  simp only [BitVec.toNat_ofNat, UInt8.toNat_ofNat']
-  have := (u32 len).isLt
-  omega
-
-/-- the `wnd` fields a receiver reads from a datagram, walking it exactly as the parse loop of `Input`
-does: 24-byte header, `wnd` at offset 6, `len` at offset 20, skip `len` payload bytes -/
-def wndFields : Nat → Bytes → List (BitVec 16)
-  | 0, _ => []
-  | fuel + 1, data =>
-    if data.length < IKCP_OVERHEAD then []
-    else rd16 data 6 :: wndFields fuel ((data.drop IKCP_OVERHEAD).drop (rd32 data 20).toNat)
-
-theorem encSegs_cons (w : WireSeg) (l : List WireSeg) : encSegs (w :: l) = w.enc ++ encSegs l := by
-  unfold encSegs; simp
-
-theorem wndFields_enc (l : List WireSeg) (hl : ∀ w ∈ l, w.data.length < 2^32) (fuel : Nat) (hf : l.length ≤ fuel) :
-    wndFields fuel (encSegs l) = l.map (·.wnd) := by
-  induction l generalizing fuel with
-  | nil => cases fuel <;> simp [wndFields, encSegs, IKCP_OVERHEAD]
-  | cons w t ih =>
-    cases fuel with
-    | zero => simp at hf
-    | succ fuel =>
-      have hw := hl w (List.mem_cons_self ..)
-      rw [encSegs_cons]
-      unfold wndFields WireSeg.enc
-      rw [List.append_assoc, rd16_hdr, rd32_hdr_len]
-      have hlen : ¬ (encodeHdr w.conv w.cmd w.frg w.wnd w.ts w.sn w.una w.data.length ++ (w.data ++ encSegs t)).length < IKCP_OVERHEAD := by
-        rw [List.length_append, encodeHdr_length]; omega
-      rw [if_neg hlen]
-      have hd : List.drop IKCP_OVERHEAD (encodeHdr w.conv w.cmd w.frg w.wnd w.ts w.sn w.una w.data.length ++ (w.data ++ encSegs t))
-          = w.data ++ encSegs t := by
-        rw [← encodeHdr_length w.conv w.cmd w.frg w.wnd w.ts w.sn w.una w.data.length]
-        exact List.drop_left
-      have hu : (u32 w.data.length).toNat = w.data.length := by
-        unfold u32; rw [BitVec.toNat_ofNat]; exact Nat.mod_eq_of_lt hw
-      rw [hd, hu, List.drop_left]
-      rw [ih (fun x hx => hl x (List.mem_cons_of_mem _ hx)) fuel (by simpa using hf)]
-      rfl
-
-theorem encSegs_length_ge (l : List WireSeg) : IKCP_OVERHEAD * l.length ≤ (encSegs l).length := by
+theorem ackFlush_flOk {G : U32 → Content} (wnd : BitVec 16) (una : U32) (total : Nat) :
+    ∀ (l : List Ack) (i : Nat) (st : AckSt), FlOk G st.f → st.sc.cmd.toNat ≠ IKCP_CMD_PUSH →
+      FlOk G (ackFlush wnd una total l i st).f := by
+  intro l
   induction l with
-  | nil => simp
-  | cons w t ih =>
-    rw [encSegs_cons, List.length_append]
-    unfold WireSeg.enc
-    rw [List.length_append, encodeHdr_length, List.length_cons, Nat.mul_succ]
-    omega
+  | nil => intro i st h _; exact h
+  | cons a rest ih =>
+    intro i st h hc
+    unfold ackFlush
+    simp only []
+    split
+    · exact ih _ _ (putHdr_flOk (makeSpace_flOk h _) _ _ _ _ _ _ hc) hc
+    · exact ih _ _ (makeSpace_flOk h _) hc
 
-/-- with the fuel `Input` uses -/
-theorem wndFields_enc' (l : List WireSeg) (hl : ∀ w ∈ l, w.data.length < 2^32) :
-    wndFields ((encSegs l).length / IKCP_OVERHEAD + 1) (encSegs l) = l.map (·.wnd) := by
-  apply wndFields_enc l hl
-  have := encSegs_length_ge l
-  have h24 : 0 < IKCP_OVERHEAD := by decide
-  have : l.length ≤ (encSegs l).length / IKCP_OVERHEAD := by
-    rw [Nat.le_div_iff_mul_le h24]; rw [Nat.mul_comm]; exact this
-  omega
+theorem flushA_flOk (G : U32 → Content) (k : Kcp) (now : U32) : FlOk G (flushA k now) := by
+  unfold flushA
+  simp only []
+  have h0 : FlOk G (ackFlush (wndUnused k) k.rcv_nxt k.acklist.length k.acklist 0
+      ⟨{ k := k }, { cmd := BitVec.ofNat 8 IKCP_CMD_ACK }⟩).f :=
+    ackFlush_flOk _ _ _ _ _ _ (FlOk.init G k)
+      (show (BitVec.ofNat 8 IKCP_CMD_ACK).toNat ≠ IKCP_CMD_PUSH by decide)
+  generalize (ackFlush (wndUnused k) k.rcv_nxt k.acklist.length k.acklist 0
+      ⟨{ k := k }, { cmd := BitVec.ofNat 8 IKCP_CMD_ACK }⟩) = a at h0 ⊢
+  have step : ∀ (f : Fl) (c : Prop) [Decidable c] (conv : U32) (cmd : BitVec 8) (ts sn : U32),
+      cmd.toNat ≠ IKCP_CMD_PUSH → FlOk G f →
+      FlOk G (if c then (f.makeSpace IKCP_OVERHEAD).putHdr (encodeHdr conv cmd 0 (wndUnused k) ts sn k.rcv_nxt 0) else f) := by
+    intro f c _ conv cmd ts sn hc hf
+    split
+    · exact putHdr_flOk (makeSpace_flOk hf _) _ _ _ _ _ _ hc
+    · exact hf
+  have h1 : FlOk G { a.f with k := probePhase { a.f.k with acklist := [] } now } := h0
+  have h2 := step _ (({ a.f with k := probePhase { a.f.k with acklist := [] } now } : Fl).k.probe &&& u32 IKCP_ASK_SEND ≠ 0)
+    ({ a.f with k := probePhase { a.f.k with acklist := [] } now } : Fl).k.conv (BitVec.ofNat 8 IKCP_CMD_WASK) a.sc.ts a.sc.sn
+    (by decide) h1
+  have h3 := step _ ((if ({ a.f with k := probePhase { a.f.k with acklist := [] } now } : Fl).k.probe &&& u32 IKCP_ASK_SEND ≠ 0 then
+      (({ a.f with k := probePhase { a.f.k with acklist := [] } now } : Fl).makeSpace IKCP_OVERHEAD).putHdr
+        (encodeHdr ({ a.f with k := probePhase { a.f.k with acklist := [] } now } : Fl).k.conv (BitVec.ofNat 8 IKCP_CMD_WASK) 0
+          (wndUnused k) a.sc.ts a.sc.sn k.rcv_nxt 0)
+      else ({ a.f with k := probePhase { a.f.k with acklist := [] } now } : Fl)).k.probe &&& u32 IKCP_ASK_TELL ≠ 0)
+    (if ({ a.f with k := probePhase { a.f.k with acklist := [] } now } : Fl).k.probe &&& u32 IKCP_ASK_SEND ≠ 0 then
+      (({ a.f with k := probePhase { a.f.k with acklist := [] } now } : Fl).makeSpace IKCP_OVERHEAD).putHdr
+        (encodeHdr ({ a.f with k := probePhase { a.f.k with acklist := [] } now } : Fl).k.conv (BitVec.ofNat 8 IKCP_CMD_WASK) 0
+          (wndUnused k) a.sc.ts a.sc.sn k.rcv_nxt 0)
+      else ({ a.f with k := probePhase { a.f.k with acklist := [] } now } : Fl)).k.conv
+    (BitVec.ofNat 8 IKCP_CMD_WINS) a.sc.ts a.sc.sn (by decide) h2
+  exact h3
 
-theorem encSegs_data_le (l : List WireSeg) (w : WireSeg) (hw : w ∈ l) : w.data.length ≤ (encSegs l).length := by
-  induction l with
-  | nil => exact absurd hw List.not_mem_nil
-  | cons x t ih =>
-    rw [encSegs_cons, List.length_append]
-    rcases List.mem_cons.1 hw with rfl | h
-    · unfold WireSeg.enc; rw [List.length_append]; omega
-    · have := ih h; omega
-
-/-- every `wnd` field a receiver parses out of a datagram made of whole segments advertising `wnd` IS `wnd` -/
-theorem allWnd_fields {wnd : BitVec 16} {o : Bytes} (h : AllWnd wnd o) (hlen : o.length < 2^32) :
-    ∀ x ∈ wndFields (o.length / IKCP_OVERHEAD + 1) o, x = wnd := by
-  obtain ⟨l, e, hw⟩ := h
-  subst e
-  rw [wndFields_enc' l (fun w hm => Nat.lt_of_le_of_lt (encSegs_data_le l w hm) hlen)]
-  intro x hx
-  obtain ⟨w, hm, rfl⟩ := List.mem_map.1 hx
-  exact hw w hm
-
-/-- … and there are as many of them as segments -/
-theorem allWnd_count {o : Bytes} (l : List WireSeg) (e : o = encSegs l) (hlen : o.length < 2^32) :
-    (wndFields (o.length / IKCP_OVERHEAD + 1) o).length = l.length := by
-  subst e
-  rw [wndFields_enc' l (fun w hm => Nat.lt_of_le_of_lt (encSegs_data_le l w hm) hlen), List.length_map]
-
-
-/-! ### all operations -/
-
-/-- the datagrams an operation hands to `output` -/
-def stepOuts (k : Kcp) : Op → List Bytes
-  | .input d reg nd now => (k.input d reg nd now).outs
-  | .flush full now => (k.flush full now).outs
-  | .update now => (k.update now).outs
-  | _ => []
-
-/-- whether the model recorded a slice-bounds panic of the real code during the operation -/
-def stepPanic (k : Kcp) : Op → Bool
-  | .send b => (k.send b).panic
-  | .input d reg nd now => (k.input d reg nd now).panic
-  | .flush full now => (k.flush full now).panic
-  | .update now => (k.update now).panic
-  | _ => false
-
-/-- every datagram emitted by any operation consists of whole segments that all advertise
-`wnd_unused()` of the state the operation leaves behind -/
-theorem step_allWnd (k : Kcp) (op : Op) (hp : stepPanic k op = false) :
-    ∀ o ∈ stepOuts k op, AllWnd (wndUnused (step k op)) o := by
-  cases op with
-  | input d reg nd now => exact input_allWnd_post k d reg nd now hp
-  | flush full now => exact flush_allWnd_post k full now hp
-  | update now => exact update_allWnd_post k now hp
-  | _ => intro o hm; exact absurd hm List.not_mem_nil
-
-end KcpVerif.Kcp
+end KcpVerif.Wire
